@@ -207,6 +207,144 @@ def _find_user_stops(k, ws, fin):
     return ok
 
 
+# ------------------------------------------------------------------------------------------------
+# octets in, octets out: the provider side is the real acceptor loop over the real provider
+# ------------------------------------------------------------------------------------------------
+
+EXPL_LE, EXPL_BE = '1.2.840.10008.1.2.1', '1.2.840.10008.1.2.2'
+REUSE = [False]        # the handler of the live conditions yields one re-filled Dataset object (set by the condition)
+LIVE_TS = {1: EXPL_LE, 3: EXPL_BE, 5: '1.2.840.10008.1.2'}
+
+
+def _split_messages(wire):
+    """P-DATA-TF octets written by the library -> list of Sent (one per DIMSE message, by last-fragment flags)"""
+    from vt.harness.svc import Sent
+    from pynetdicom2 import pdu
+    out, cur, have_cmd_last, expect_data = [], [], False, False
+    for raw in wire:
+        if raw[0] != 4:
+            continue
+        p = pdu.PDataTfPDU.decode(raw)
+        cur.append(p)
+        for v in p.data_value_items:
+            hdr = v.data_value[0]
+            if hdr == 3:
+                s_ = Sent(cur)
+                expect_data = s_.us(0x0800) != 0x0101
+                if not expect_data:
+                    out.append(s_)
+                    cur = []
+            elif hdr == 2:
+                out.append(Sent(cur))
+                cur = []
+    return out, not cur
+
+
+def _live_find(seq, packed, k, mid):
+    """one association whose peer got the FIND class accepted on contexts 1 (explicit LE), 3 (explicit BE) and 5
+    (implicit LE); queries are sent on the contexts listed in seq; -> list of per-query results"""
+    from vt import sim
+    from vt.harness import live as L, assoc as A
+    from pynetdicom2 import applicationentity, pdu
+    L.install(sim.SimClock(1000))
+    seen = []
+
+    class Entity(applicationentity.AE):
+        def __init__(self):
+            applicationentity.AEBase.__init__(self, [EXPL_LE, EXPL_BE, '1.2.840.10008.1.2'], 16384)
+            self.supported_scp.update({ROOT: sopclass.qr_find_scp})
+
+        def on_receive_find(self, ctx, ds):
+            seen.append((ctx.id, str(ctx.supported_ts), ds))
+            if not REUSE[0]:
+                return iter([(pool(i), statuses.Status(PEND[i % 2], dm.CFindRSPMessage)) for i in range(k)])
+
+            def one_object():
+                # an application that fills ONE Dataset object again for every match and yields it
+                ds_ = pydicom.Dataset()
+                for i in range(k):
+                    src = pool(i)
+                    ds_.PatientName = src.PatientName
+                    ds_.PatientID = src.PatientID
+                    yield ds_, statuses.Status(PEND[i % 2], dm.CFindRSPMessage)
+            return one_object()
+    ae = Entity()
+    la = L.LiveAcceptor(ae, 'PEER')
+    rq = pdu.AAssociateRqPDU('SCP', 'PEER', [pdu.ApplicationContextItem(A.APP_CTX)] + [
+        pdu.PresentationContextItemRQ(cid, pdu.AbstractSyntaxSubItem(ROOT), [pdu.TransferSyntaxSubItem(ts)])
+        for cid, ts in sorted(LIVE_TS.items())] + [A.user_info(16384)])
+    la.deliver(rq.encode())
+    la.establish()
+    results = []
+    for j, cid in enumerate(seq):
+        ts = pydicom.uid.UID(LIVE_TS[cid])
+        m = dm.CFindRQMessage()
+        m.message_id = mid + j
+        m.sop_class_uid = ROOT
+        m.priority = 0
+        m.data_set = dsutils.encode(query(), ts.is_implicit_VR, ts.is_little_endian)
+        m.set_length()
+        pdus = list(m.encode(cid, 16384))
+        if packed:
+            pdus = [pdu.PDataTfPDU([v for p in pdus for v in p.data_value_items])]
+        before = len(la.wire())
+        la.deliver(b''.join(p.encode() for p in pdus))
+        la.serve_one()
+        msgs, whole = _split_messages(la.wire()[before:])
+        results.append((cid, ts, msgs, whole))
+    return results, seen, la
+
+
+@cond(bounds='C-FIND provider behind the REAL acceptor loop and provider (octets in, octets out): the FIND class is accepted '
+             'on three contexts with different transfer syntaxes (1 explicit LE, 3 explicit BE, 5 implicit LE); 1..3 '
+             'queries on one association on contexts chosen by symbolic selectors, each query sent one PDV per PDU or '
+             'with command and identifier packed into ONE P-DATA-TF (symbolic); k = 0..3 matches (symbolic), yielded as '
+             'separate objects or as ONE Dataset object re-filled for every match (symbolic). Every '
+             'query must reach the handler unchanged with the context it arrived on, and its k pending responses + 1 '
+             'final response must come back on that context, in that context\'s transfer syntax, in order',
+      timeout=300)
+def find_over_live_acceptor(c0: int, c1: int, c2: int, n: int, packed: bool, k: int, reuse: bool) -> bool:
+    """
+    pre: 0 <= c0 <= 2 and 0 <= c1 <= 2 and 0 <= c2 <= 2 and 1 <= n <= 3 and 0 <= k <= 3
+    post: _
+    """
+    from vt import sim
+    n, k = pick(n, 1, 3), pick(k, 0, 3)
+    seq = [(1, 3, 5)[pick(c, 0, 2)] for c in (c0, c1, c2)][:n]
+    packed = bool(pick(int(packed), 0, 1))
+    REUSE[0] = bool(pick(int(reuse), 0, 1))
+    with sim._no_tracing():
+        try:
+            ok = _find_over_live(seq, packed, k)
+        finally:
+            REUSE[0] = False
+    deep(ok and n == 3 and packed and k == 2 and seq[0] != seq[1])
+    return ok
+
+
+def _find_over_live(seq, packed, k):
+    results, seen, la = _live_find(seq, packed, k, 40)
+    ok = la.pump.err is None and len(seen) == len(seq) and la.errors == []
+    want_q = dsutils.encode(query(), True, True)
+    for j, (cid, ts, msgs, whole) in enumerate(results):
+        ok = ok and whole and len(msgs) == k + 1
+        if not ok:
+            return False
+        hcid, hts, hds = seen[j]
+        ok = ok and hcid == cid and hts == str(ts) and dsutils.encode(hds, True, True) == want_q
+        for i, s_ in enumerate(msgs):
+            ok = ok and s_.wellformed and s_.one_context() == cid and s_.command_field == 0x8020 \
+                and s_.responded_to == 40 + j
+            if i < k:
+                ok = ok and s_.status == PEND[i % 2] and s_.data is not None
+                if ok:
+                    got = dsutils.decode(s_.data, ts.is_implicit_VR, ts.is_little_endian)
+                    ok = dsutils.encode(got, True, True) == dsutils.encode(pool(i), True, True)
+            else:
+                ok = ok and s_.status == 0 and s_.data is None
+    return ok
+
+
 class WrapAssoc(object):
     def __init__(self, ua, sop):
         self.ua = ua
@@ -260,6 +398,86 @@ def c_find_wrapper(k: int, w0: bool, w1: bool, lazy: bool) -> bool:
                 and dsutils.encode(got[i][0], True, True) == dsutils.encode(pool(i), True, True)
         ok = ok and got[k][0] is None and int(got[k][1]) == 0
     deep(ok and k == 2 and lazy)
+    return ok
+
+
+def _c_find_live(ncalls, k):
+    """ncalls consecutive calls of the real pynetdicom2.c_find (real ClientAE, real requester over a live provider)
+    against a scripted C-FIND provider answering k pending matches + success; -> list of per-call observations"""
+    from vt import sim
+    from vt.harness import live as L, assoc as A
+    from vt.harness.svc import Sent
+    from pynetdicom2 import pdu
+    import threading
+    L.install(sim.SimClock(1000))
+    pynetdicom2._tls = threading.local()
+    out = []
+
+    def make_peer(rec):
+        def react(new):
+            res = []
+            for raw in new:
+                if raw[0] == 1:
+                    rq = pdu.AAssociateRqPDU.decode(raw)
+                    pcs = rq.variable_items[1:-1]
+                    rec['contexts'] = [(it.context_id, str(it.abs_sub_item.name)) for it in pcs]
+                    items = [pdu.ApplicationContextItem(A.APP_CTX)]
+                    for it in pcs:
+                        items.append(pdu.PresentationContextItemAC(it.context_id, 0,
+                                                                   pdu.TransferSyntaxSubItem('1.2.840.10008.1.2')))
+                    items.append(A.user_info(16384))
+                    res.append(pdu.AAssociateAcPDU(rq.called_ae_title, rq.calling_ae_title, items).encode())
+                elif raw[0] == 4:
+                    s_ = Sent([pdu.PDataTfPDU.decode(raw)])
+                    if s_.command_field != 0x0020:
+                        continue                      # the identifier fragment of the request
+                    rec['mid'], cid = s_.message_id, s_.one_context()
+                    for i in range(k + 1):
+                        res.append(b''.join(p.encode() for p in _rsp_wire(
+                            0xFF00 if i < k else 0, pool(i) if i < k else None, rec['mid'], cid)))
+                elif raw[0] == 5:
+                    res.append(pdu.AReleaseRpPDU().encode())
+            return res
+        return react
+    for _ in range(ncalls):
+        rec = {}
+        L.LiveDulModule.queue = [(L.StepSocket(), L.PeerBot(make_peer(rec)))]
+        try:
+            got = list(pynetdicom2.c_find({'aet': 'R', 'address': 'h', 'port': 104}, 'LOCAL', query()))
+            rec['got'] = [(None if d is None else dsutils.encode(d, True, True), int(st)) for d, st in got]
+        except Exception as e:                         # noqa
+            rec['error'] = '%s: %s' % (type(e).__name__, e)
+        out.append(rec)
+    return out
+
+
+def _rsp_wire(status, ds, mid, cid):
+    m = _rsp(status, ds, mid)
+    m.set_length()
+    return list(m.encode(cid, 16384))
+
+
+@cond(bounds='the convenience wrapper c_find called n times in a row in one process (n from {1, 2, 3, 64, 65, 70} by symbolic selector: histories), through '
+             'the REAL ClientAE and requester over a live provider against a scripted C-FIND provider (k = 0..2 matches): '
+             'every call proposes the same presentation contexts, uses a message id not used before in this thread, '
+             'and yields exactly the k matches and the final success', timeout=300)
+def c_find_repeated(n: int, k: int) -> bool:
+    """
+    pre: 0 <= n <= 5 and 0 <= k <= 2
+    post: _
+    """
+    from vt import sim
+    n, k = (1, 2, 3, 64, 65, 70)[pick(n, 0, 5)], pick(k, 0, 2)
+    with sim._no_tracing():
+        recs = _c_find_live(n, k)
+        want = [(dsutils.encode(pool(i), True, True), 0xFF00) for i in range(k)] + [(None, 0)]
+        ok = len(recs) == n
+        mids = []
+        for r in recs:
+            ok = ok and r.get('error') is None and r.get('got') == want and r.get('contexts') == recs[0].get('contexts')
+            mids.append(r.get('mid'))
+        ok = ok and len(set(mids)) == n and None not in mids
+    deep(ok and n == 65)
     return ok
 
 
